@@ -1,7 +1,7 @@
 (* C06 property theorems (statements only; proofs are in C06_proofs_*.v). *)
 From Coq Require Import ZArith QArith Reals Qreals List Bool Arith.
 From Bignums Require Import BigQ.
-From P Require Import C06_model_ops C06_gen C06_model C06_proofs_real C06_proofs_list C06_proofs_geom C06_proofs_select.
+From P Require Import C06_model_ops C06_gen C06_model C06_proofs_real C06_proofs_list C06_proofs_geom.
 Import ListNotations.
 Local Open Scope R_scope.
 
@@ -107,10 +107,10 @@ Theorem affine_isometry : forall q11 q12 q13 q21 q22 q23 q31 q32 q33 t1 t2 t3,
 Proof. exact affine_isometry_lemma. Qed.
 Print Assumptions affine_isometry.
 
-(* the three routes are the same function (default select = 0..sectors-1; per-atom route for every atom) *)
-Theorem routes_agree : forall k M rad Rm pts idx,
-  compute_weights ROps k M rad Rm pts (seq 0 (Nat.max (length idx - 1) 1)) idx =
-  generate_weights ROps k M rad Rm pts (seq 0 (Nat.max (length idx - 1) 1)) idx.
+(* the three routes are the same function: segment-wise routes for EVERY select and segment table, per-atom route
+   for every atom *)
+Theorem routes_agree : forall k M rad Rm pts sel idx,
+  compute_weights ROps k M rad Rm pts sel idx = generate_weights ROps k M rad Rm pts sel idx.
 Proof. exact routes_agree_lemma. Qed.
 Print Assumptions routes_agree.
 
@@ -119,14 +119,6 @@ Theorem routes_agree_atom : forall k M rad Rm pts A,
   compute_atom_weight ROps k M rad Rm pts A = map (fun d => becke_weight ROps k M rad Rm d A) pts.
 Proof. exact routes_agree_atom_lemma. Qed.
 Print Assumptions routes_agree_atom.
-
-(* with an explicit select that is not 0..M-1 the two segment-wise routes DIFFER (executed model, bigQ) *)
-Theorem routes_agree_select_refuted :
-  exists a b, generate_weights QOps 1 2 refute_rad refute_Rm refute_pts [1; 0]%nat [0; 1; 2]%nat = Some a /\
-              compute_weights QOps 1 2 refute_rad refute_Rm refute_pts [1; 0]%nat [0; 1; 2]%nat = Some b /\
-              list_eqQ a [0%bigQ; 0%bigQ] = true /\ list_eqQ b [1%bigQ; 1%bigQ] = true.
-Proof. exact routes_select_refuted_lemma. Qed.
-Print Assumptions routes_agree_select_refuted.
 
 (* chunked evaluation = unchunked evaluation for EVERY chunk size >= 1 and EVERY index table of length M+1
    (monotone or not), any number of points *)
